@@ -99,7 +99,8 @@ class Producer:
         if outcome == 'timeout':
             self.loop.call_soon(fut.set_exception, InterestTimeout())
         elif outcome == 'nack':
-            self.loop.call_soon(fut.set_exception, InterestNack(150))
+            # the reason code of the Nack is the case's (NO_ROUTE unless stated): none of them is a reason to ask again
+            self.loop.call_soon(fut.set_exception, InterestNack((c.get('fault') or {}).get('reason', 150)))
         elif outcome == 'validation':
             seg = (None if c['unseg'] else c['disc']) if key == 'disc' else key
             nm, meta, content = self.data_for(seg)
@@ -323,6 +324,11 @@ def cases(tier, rng):
                                 loss[idx] = after
                                 yield dict(n=n, unseg=False, versioned=False, disc=disc, retry=r, loss=loss, marker=marker,
                                            final=n - 1, fault={'at': at, 'kind': kind, 'after': after}, fresh=True, timeout=100)
+                                if kind == 'nack' and marker == 'all':
+                                    for reason in (0, 50, 100):        # NONE, CONGESTION, DUPLICATE
+                                        yield dict(n=n, unseg=False, versioned=False, disc=disc, retry=r, loss=loss, marker=marker,
+                                                   final=n - 1, fault={'at': at, 'kind': kind, 'after': after, 'reason': reason},
+                                                   fresh=True, timeout=100)
 
 
 def run(tier='quick', seed=0, shard=(0, 1)):
